@@ -1,0 +1,268 @@
+//go:build verif
+
+// Contracts for package date, read by /verif/govc (never compiled into normal builds).
+// Properties: C01, C07, C09, C11, C15 and date's share of C16, C17, C18.
+
+package date
+
+//@ config MaxInputLength
+//@ config Formatter = DefaultFormatter
+//@ config Parser = DefaultParser[[]byte]
+
+// wf: the representation invariant of a Date produced by this package: it names a real calendar day.
+// (the components exactly as Date() decodes them, including the wrap-around of the zero-based fields)
+//@ pure func yr(d Date) int = int(d.year + 1)
+//@ pure func mo(d Date) int = int(d.month + 1)
+//@ pure func dy(d Date) int = int(d.day + 1)
+//@ pure func dord(d Date) int = ord(yr(d), mo(d), dy(d))
+//@ pure func dom(x int) bool = -1000000000 <= x && x <= 1000000000
+//@ pure func ordNorm(y int, m int, d int) int = ord(y + fdiv(m-1, 12), fmod(m-1, 12)+1, 1) + d - 1
+//@ pure func wf(d Date) bool = realDay(yr(d), mo(d), dy(d))
+//@ pure func lexlt(a Date, b Date) bool = a.year < b.year || (a.year == b.year && (a.month < b.month || (a.month == b.month && a.day < b.day)))
+
+// ---- components and conversions (C01, C07, C09) ---------------------------------------------------------------
+//@ func (Date).Date
+//@   ensures [C01.fields C07.fields] year == yr(d) && int(month) == mo(d) && day == dy(d)
+//@ func (Date).Year
+//@   ensures [C01.fields] result == yr(d)
+//@ func (Date).Month
+//@   ensures [C01.fields] int(result) == mo(d)
+//@ func (Date).Day
+//@   ensures [C01.fields] result == dy(d)
+
+//@ func (*Date).FromTime
+//@   ensures [C07.fromtime] timeIsZero(t) ==> *d == Date{}
+//@   ensures [C07.fromtime] !timeIsZero(t) ==> d.year == int32(timeYear(t)-1) && d.month == uint8(timeMonth(t))-1 && d.day == uint8(timeDay(t)-1)
+//@   assigns *d
+
+//@ func FromTime
+//@   ensures [C07.fromtime] timeIsZero(t) ==> result == Date{}
+//@   ensures [C07.fromtime] !timeIsZero(t) ==> result.year == int32(timeYear(t)-1) && result.month == uint8(timeMonth(t))-1 && result.day == uint8(timeDay(t)-1)
+//@   ensures [C07.fromtime] dom(timeYear(t)) ==> yr(result) == timeYear(t) && mo(result) == timeMonth(t) && dy(result) == timeDay(t) && wf(result)
+
+// New normalises like time.Date: the result is the real day whose day number is that of (year, month, 1) plus day-1.
+//@ func New
+//@   requires dom(year) && dom(int(month)) && dom(day)
+//@   ensures [C07.new C09.norm] wf(result) && dord(result) == ordNorm(year, int(month), day)
+//@   ensures [C07.new C09.norm] realDay(year, int(month), day) ==> yr(result) == year && mo(result) == int(month) && dy(result) == day
+
+//@ func (Date).Time
+//@   ensures [C07.time] timeUTCMidnight(result)
+//@   ensures [C07.time] ord(timeYear(result), timeMonth(result), timeDay(result)) == ordNorm(yr(d), mo(d), dy(d))
+//@   ensures [C07.time] wf(d) ==> timeYear(result) == yr(d) && timeMonth(result) == mo(d) && timeDay(result) == dy(d)
+
+//@ func (Date).Add
+//@   requires wf(d) && dom(yr(d)) && dom(years) && dom(months) && dom(days)
+//@   ensures [C07.add] wf(result) && dord(result) == ordNorm(yr(d)+years, mo(d)+months, dy(d)+days)
+
+//@ func (Date).AddDuration
+//@   requires wf(d) && dom(yr(d))
+//@   ensures [C07.add] wf(result) && dord(result) == fdiv((dord(d)-1)*86400000000000+int(duration), 86400000000000) + 1
+
+//@ func (Date).Sub
+//@   requires wf(d) && wf(e)
+//@   ensures [C07.sub] -9223372036854775808 <= (dord(d)-dord(e))*86400000000000 && (dord(d)-dord(e))*86400000000000 <= 9223372036854775807
+//@       ==> int(result) == (dord(d)-dord(e))*86400000000000
+
+//@ func (*Date).Scan
+//@   opt props C07,C17
+//@   ensures [C17.recv] err != nil ==> *d == old(*d)
+//@   assigns *d
+
+// ---- C01 / C09: text form ----------------------------------------------------------------------------------------
+// The ISO text, written from the statement: 4 to 9 year digits (zero padded to 4), two month digits, two day digits,
+// and, in the extended form only, a '-' before the month and before the day.
+//@ pure func withinLimit(n int) bool = MaxInputLength == 0 || n <= MaxInputLength
+//@ pure func ylen(y int) int = ite(y < 10000, 4, ite(y < 100000, 5, ite(y < 1000000, 6, ite(y < 10000000, 7, ite(y < 100000000, 8, 9)))))
+//@ pure func ydig(y int, n int, j int) byte = ite(n == 4, dig(y, 3-j), ite(n == 5, dig(y, 4-j), ite(n == 6, dig(y, 5-j), ite(n == 7, dig(y, 6-j), ite(n == 8, dig(y, 7-j), dig(y, 8-j))))))
+//@ pure func isoLen(y int, basic bool) int = ylen(y) + ite(basic, 4, 6)
+//@ pure func isoAt(w bytes, o int, y int, m int, d int, basic bool) bool = (forall j in 0..9 :: j < ylen(y) ==> w[o+j] == ydig(y, ylen(y), j))
+//@     && ite(basic, w[o+ylen(y)] == dig(m, 1) && w[o+ylen(y)+1] == dig(m, 0) && w[o+ylen(y)+2] == dig(d, 1) && w[o+ylen(y)+3] == dig(d, 0),
+//@         w[o+ylen(y)] == '-' && w[o+ylen(y)+1] == dig(m, 1) && w[o+ylen(y)+2] == dig(m, 0) && w[o+ylen(y)+3] == '-' && w[o+ylen(y)+4] == dig(d, 1) && w[o+ylen(y)+5] == dig(d, 0))
+//@ pure func yearOK(d Date) bool = 0 <= yr(d) && yr(d) <= 999999999
+
+//@ func DefaultFormatter
+//@   ensures [C01.canon C16.append] err == nil
+//@   ensures [C01.canon C16.append] wf(d) && yearOK(d) ==> len(result) == len(buf) + isoLen(yr(d), f&FormatBasic != 0)
+//@   ensures [C01.canon C16.append] wf(d) && yearOK(d) ==> isoAt(result, len(buf), yr(d), mo(d), dy(d), f&FormatBasic != 0)
+//@   ensures [C16.append] len(result) >= len(buf) && forall i in 0..len(buf) :: result[i] == old(buf)[i]
+//@   ensures [C16.inplace] sameOrFresh(result, buf)
+//@   assigns buf[len(buf):]
+//@   split yr(d) < 10000
+//@   split 10000 <= yr(d) && yr(d) < 100000
+//@   split 100000 <= yr(d) && yr(d) < 1000000
+//@   split 1000000 <= yr(d) && yr(d) < 10000000
+//@   split 10000000 <= yr(d) && yr(d) < 100000000
+
+// The parser's language, from the statement of C09: 4..9 year digits, 2 month digits, 2 day digits, separators both
+// present or both absent, nothing else.
+//@ pure func ext(w bytes) bool = len(w) >= 10 && w[len(w)-3] == '-' && w[len(w)-6] == '-'
+//@ pure func ylenOf(w bytes) int = ite(ext(w), len(w)-6, len(w)-4)
+//@ pure func dateText(w bytes) bool = 8 <= len(w) && len(w) <= 15 && 4 <= ylenOf(w) && ylenOf(w) <= 9 && digits(w, 0, ylenOf(w))
+//@     && ite(ext(w), digits(w, len(w)-5, 2), digits(w, len(w)-4, 2)) && digits(w, len(w)-2, 2)
+//@ pure func Y(w bytes) int = dec(w, 0, ylenOf(w))
+//@ pure func M(w bytes) int = ite(ext(w), dec(w, len(w)-5, 2), dec(w, len(w)-4, 2))
+//@ pure func D(w bytes) int = dec(w, len(w)-2, 2)
+
+//@ func DefaultParser
+//@   ensures [C09.accept] err == nil <==> len(input) > 0 && withinLimit(len(input)) && dateText(input) && realDay(Y(input), M(input), D(input))
+//@       && !(!ext(input) && r&RuleDisableBasic != 0)
+//@   ensures [C09.value C01.parse] err == nil ==> yr(date) == Y(input) && mo(date) == M(input) && dy(date) == D(input)
+//@   ensures [C09.zero C17.zero] err != nil ==> date == Date{} && errAs(err, *ParseError)
+//@   ensures [C09.basic] len(input) > 0 && withinLimit(len(input)) && dateText(input) && realDay(Y(input), M(input), D(input)) && !ext(input) && r&RuleDisableBasic != 0
+//@       ==> errIs(err, ErrBasicFormatDisabled)
+//@   ensures [C09.wf] err == nil ==> wf(date)
+//@   ensures [C18.limit] !withinLimit(len(input)) ==> errIs(err, ErrInputTooLong) && errData(err, "inputLen") == 0
+//@   ensures [C18.limit] errIs(err, ErrInputTooLong) ==> !withinLimit(len(input))
+//@   split len(input) == 8
+//@   split len(input) == 9
+//@   split len(input) == 10
+//@   split len(input) == 11
+//@   split len(input) == 12
+//@   split len(input) == 13
+//@   split len(input) == 14
+//@   split len(input) == 15
+
+//@ func newParseError
+//@   inline
+
+//@ func formatByVerb
+//@   ensures [C01.verb] result == ite(verb == 'b', FormatBasic, 0)
+
+//@ func (Date).format
+//@   ensures [C01.canon] wf(d) && yearOK(d) ==> len(result) == isoLen(yr(d), f&FormatBasic != 0) && isoAt(result, 0, yr(d), mo(d), dy(d), f&FormatBasic != 0)
+
+//@ func (Date).String
+//@   ensures [C01.canon] wf(d) && yearOK(d) ==> len(result) == isoLen(yr(d), false) && isoAt(result, 0, yr(d), mo(d), dy(d), false)
+
+//@ func (Date).MarshalText
+//@   ensures [C01.canon] err == nil
+//@   ensures [C01.canon] wf(d) && yearOK(d) ==> len(r0) == isoLen(yr(d), false) && isoAt(r0, 0, yr(d), mo(d), dy(d), false)
+//@   ensures fresh(r0)
+
+//@ func (*Date).UnmarshalText
+//@   ensures [C17.recv] err != nil ==> *d == old(*d)
+//@   ensures [C09.accept] err == nil <==> len(data) > 0 && withinLimit(len(data)) && dateText(data) && realDay(Y(data), M(data), D(data))
+//@   ensures [C09.value C01.parse] err == nil ==> yr(*d) == Y(data) && mo(*d) == M(data) && dy(*d) == D(data) && wf(*d)
+//@   assigns *d
+
+// C01: formatting a date of a year 0..999999999 and parsing the text back (limit disabled or large enough) gives the date.
+//@ func lemmaC01RoundTrip
+//@   lemma
+//@   requires wf(d) && yearOK(d)
+//@   requires withinLimit(isoLen(yr(d), f&FormatBasic != 0))
+//@   requires f&FormatBasic != 0 ==> r&RuleDisableBasic == 0
+//@   ensures [C01.roundtrip] err == nil && got == d
+//@   split yr(d) < 10000
+//@   split yr(d) < 100000
+//@   split yr(d) < 1000000
+//@   split yr(d) < 10000000
+//@   split yr(d) < 100000000
+
+// ---- C07: ordering --------------------------------------------------------------------------------------------
+//@ func (Date).Equal
+//@   ensures [C07.order C15.contains] result <==> (d.year == e.year && d.month == e.month && d.day == e.day)
+
+//@ func (Date).IsZero
+//@   ensures [C07.zero] result <==> (d.year == 0 && d.month == 0 && d.day == 0)
+
+//@ func (Date).Before
+//@   ensures [C07.order C15.contains] result <==> lexlt(d, e)
+
+//@ func (Date).After
+//@   ensures [C07.order C15.contains] result <==> lexlt(e, d)
+
+// exactly one of before / equal / after, and it is the chronological one (ord = day number of the proleptic Gregorian calendar)
+//@ func lemmaC07Trichotomy
+//@   lemma
+//@   requires wf(d) && wf(e)
+//@   requires d.year < 2147483647 && e.year < 2147483647   // the year component itself does not wrap (years up to 2^31-1)
+//@   ensures [C07.order] (before && !equal && !after) || (!before && equal && !after) || (!before && !equal && after)
+//@   ensures [C07.order] before <==> ord(yr(d), mo(d), dy(d)) < ord(yr(e), mo(e), dy(e))
+//@   ensures [C07.order] equal <==> ord(yr(d), mo(d), dy(d)) == ord(yr(e), mo(e), dy(e))
+//@   ensures [C07.order] after <==> ord(yr(d), mo(d), dy(d)) > ord(yr(e), mo(e), dy(e))
+
+// ---- C11: binary encoding -----------------------------------------------------------------------------------------
+//@ pure func be32(data bytes) int32 = int32(data[1])<<24 | int32(data[2])<<16 | int32(data[3])<<8 | int32(data[4])
+
+//@ func (Date).MarshalBinary
+//@   mode bv
+//@   ensures [C11.layout] err == nil && len(r0) == 7 && r0[0] == 1
+//@   ensures [C11.layout] be32(r0) == d.year+1 && r0[5] == d.month+1 && r0[6] == d.day+1
+//@   ensures fresh(r0)
+
+//@ func (*Date).UnmarshalBinary
+//@   mode bv
+//@   ensures [C11.class] len(data) == 0 ==> errIs(err, ErrInvalidLength)
+//@   ensures [C11.class] len(data) > 0 && data[0] != 1 ==> errIs(err, ErrUnsupportedVersion)
+//@   ensures [C11.class] len(data) > 0 && data[0] == 1 && len(data) != 7 ==> errIs(err, ErrInvalidLength)
+//@   ensures [C11.strict] err == nil <==> len(data) == 7 && data[0] == 1 && realDay(int(be32(data)), int(data[5]), int(data[6]))
+//@   ensures [C11.value] err == nil ==> d.year == be32(data)-1 && d.month == data[5]-1 && d.day == data[6]-1
+//@   ensures [C11.real] err == nil ==> wf(*d)
+//@   ensures [C17.recv] err != nil ==> *d == old(*d)
+//@   assigns *d
+
+//@ func lemmaC11RoundTrip
+//@   mode bv
+//@   lemma
+//@   requires wf(d)
+//@   ensures [C11.roundtrip] err == nil && got == d
+
+// ---- C15: range filter ------------------------------------------------------------------------------------------------
+//@ func (filterNo).Contains
+//@   ensures [C15.contains] result
+//@ func (*filterDate).Contains
+//@   ensures [C15.contains] result <==> d.date == date
+//@ func (*filterFrom).Contains
+//@   ensures [C15.contains] result <==> !lexlt(date, d.from)
+//@ func (*filterTo).Contains
+//@   ensures [C15.contains] result <==> !lexlt(d.to, date)
+//@ func (*filterFromTo).Contains
+//@   ensures [C15.contains] d.from == d.to || lexlt(d.from, d.to) ==> (result <==> !lexlt(date, d.from) && !lexlt(d.to, date))
+
+// FilterFromTo is verified through its body inside lemmaC15 (its result is an interface value whose
+// dynamic type and payload the lemma dispatches on).
+//@ func FilterFromTo
+//@   inline
+
+//@ func lemmaC15
+//@   lemma
+//@   ensures [C15.err] err != nil <==> (from != nil && to != nil && lexlt(*to, *from))
+//@   ensures [C15.err] err != nil ==> errIs(err, ErrInvalidFromOrTo)
+//@   ensures [C15.contains] err == nil ==> (contains <==> (from == nil || !lexlt(x, *from)) && (to == nil || !lexlt(*to, x)))
+//@   ensures [C15.kept] err == nil ==> (contains2 <==> contains)
+
+var _ = []any{DefaultParser[string], DefaultParser[[]byte]}
+
+func lemmaC01RoundTrip(d Date, f Format, r Rule) (got Date, err error) {
+	b, _ := DefaultFormatter(nil, d, f)
+	return DefaultParser(b, r)
+}
+
+func lemmaC07Trichotomy(d, e Date) (before, equal, after bool) {
+	return d.Before(e), d.Equal(e), d.After(e)
+}
+
+func lemmaC11RoundTrip(d Date) (got Date, err error) {
+	b, _ := d.MarshalBinary()
+	err = got.UnmarshalBinary(b)
+	return got, err
+}
+
+// The filter built from optional bounds contains exactly the inclusive interval, and keeps the bounds it was
+// built with: overwriting the caller's variables afterwards (with arbitrary dates) does not change the answer.
+func lemmaC15(from, to *Date, x Date, junk1, junk2 Date) (contains bool, contains2 bool, err error) {
+	f, err := FilterFromTo(from, to)
+	if err != nil {
+		return false, false, err
+	}
+	contains = f.Contains(x)
+	if from != nil {
+		*from = junk1
+	}
+	if to != nil {
+		*to = junk2
+	}
+	contains2 = f.Contains(x)
+	return contains, contains2, nil
+}
